@@ -125,7 +125,73 @@ func c18HasDup(nodes []*vNode) bool {
 	return false
 }
 
+// c18GenChain builds a single deep path a/b/c/… with one leaf, restores it with an include
+// filter for the leaf (or without filter) and puts ONE symlink to an outside directory at a
+// random position of that path: every ancestor position is hit over the run.
+func c18GenChain(h *H) *c18Case {
+	c := &c18Case{labels: map[string]bool{}}
+	c.lbl("chain-case")
+	depth := 1 + h.Intn(4)
+	var comps []string
+	for i := 0; i < depth; i++ {
+		comps = append(comps, h.Pick(c18Names))
+	}
+	leafName := h.Pick(c18Names)
+	leaf := &vNode{Name: leafName}
+	switch h.Intn(5) {
+	case 0:
+		leaf.Type = data.NodeTypeSymlink
+		leaf.Target = "x"
+		c.lbl("symlink-node")
+	case 1:
+		leaf.Type = data.NodeTypeFifo
+		leaf.Mode = 0644
+		c.lbl("fifo-node")
+	case 2:
+		leaf.Type = data.NodeTypeDir
+		leaf.Mode = 0700
+	default:
+		leaf.Type = data.NodeTypeFile
+		leaf.Mode = 0640
+		if h.Bool() {
+			leaf.Parts = [][]byte{[]byte("leaf")}
+		}
+	}
+	node := leaf
+	for i := depth - 1; i >= 0; i-- {
+		node = &vNode{Name: comps[i], Type: data.NodeTypeDir, Mode: 0750, Children: []*vNode{node}}
+	}
+	c.tree = []*vNode{node}
+	k := 1 + h.Intn(depth+1) // position of the symlink: an ancestor or the leaf itself
+	all := append(append([]string{}, comps...), leafName)
+	p := c18Pre{path: filepath.Join(append([]string{"target"}, all[:k]...)...), kind: "symlink"}
+	if h.Intn(4) == 0 {
+		p.target = "$ABS/outside/sub"
+	} else {
+		p.target = strings.Repeat("../", k) + "outside"
+	}
+	c.pre = []c18Pre{p}
+	c.lbl("pre-symlink-to-outside-dir")
+	if h.Intn(4) > 0 {
+		c.filter = "include"
+		c.pats = []string{"/" + strings.Join(all, "/")}
+		c.lbl("filter-include")
+	} else {
+		c.filter = "none"
+	}
+	c.del = h.Intn(3) == 0
+	if c.del {
+		c.lbl("delete")
+	}
+	c.ow = []string{"always", "always", "never"}[h.Intn(3)]
+	c.lbl("ow-" + c.ow)
+	return c
+}
+
 func c18GenCase(h *H) *c18Case {
+	if h.Intn(5) == 0 {
+		return c18GenChain(h)
+	}
 	c := &c18Case{labels: map[string]bool{}}
 	c.tree = c18GenTree(h, c, 0, "")
 	if c18HasDup(c.tree) {
@@ -285,7 +351,7 @@ func c18FixTargets(nodes []*vNode, abs string) {
 }
 
 func streamC18(h *H) {
-	n := h.N(150, 6000)
+	n := h.N(150, 3000)
 	repo, be := vNewRepo()
 	cli := NewCLI(be)
 	for i := 0; i < n; i++ {
